@@ -98,9 +98,29 @@ def from_raw_parts(m, st, inst, args, t):
     raise Unanalysable("from_raw_parts on location kind %s" % loc[0])
 
 
-@prim("core::slice::<impl [T]>::get")
+def header_slot(m, st, s, idx, checked):
+    """`headers.get_mut(i)` / `get_unchecked_mut(i)` on the caller's header array: the index-style
+    counterpart of pulling the next slot from `iter_mut()` (same events for the monitors)."""
+    pb = m.p.ptr_bytes * 8
+    ok = m.decide_sym_cmp(st, "Lt", idx, s[2])
+    if not checked:
+        m.oblige(st, "get_unchecked-in-bounds", ok, "get_unchecked(%s) on slice of length %s" % (m.show_sym(idx), m.show_sym(s[2])))
+    elif not ok:
+        if m.hooks is not None:
+            m.hooks.on_slots_exhausted(m, st, None)
+        return NONE
+    item = ("ptr", ("D", s[1][1], sym_add(s[1][2], idx), ()))
+    if m.hooks is not None:
+        m.hooks.on_yield_slot(m, st, item)
+    st.flags.pop("$since", None)
+    return some(item) if checked else item
+
+
+@prim("core::slice::<impl [T]>::get", "core::slice::<impl [T]>::get_mut")
 def slice_get(m, st, inst, args, t):
     s, idx = args
+    if s[0] == "fat" and s[1][0] == "D" and idx[0] in ("int", "sym") and not s[1][3]:
+        return header_slot(m, st, s, idx, True)
     if s[0] != "fat" or idx[0] != "agg" or len(idx[1]) != 1:
         return NotImplemented
     n = idx[1][0]
@@ -113,6 +133,8 @@ def slice_get(m, st, inst, args, t):
 @prim("core::slice::<impl [T]>::get_unchecked_mut", "core::slice::<impl [T]>::get_unchecked")
 def slice_get_unchecked(m, st, inst, args, t):
     s, idx = args
+    if s[0] == "fat" and s[1][0] == "D" and idx[0] in ("int", "sym") and not s[1][3]:
+        return header_slot(m, st, s, idx, False)
     if s[0] != "fat" or idx[0] != "agg" or len(idx[1]) != 1:
         return NotImplemented
     n = idx[1][0]
